@@ -102,8 +102,10 @@ def merge_vcs(env, want):
     out = []
 
     def on(c):
-        if env.get('bare_first') and c not in (C_FRAME, C_FRESH, C_ONLY_VE):
-            return False      # an input assembled by hand without provenance: only the frame / exception clauses are stated for it
+        if env.get('extra_callable') and c not in (C_FRAME, C_FRESH, C_ONLY_VE, C_WF, C_DEPTHS):
+            return False      # the variant with richer provenance is stated for the depth map and the frame
+        if env.get('bare_first') and c not in (C_FRAME, C_FRESH, C_ONLY_VE, C_WF):
+            return False      # an input assembled by hand without provenance: only the frame / exception / well-formedness clauses are stated for it
         return want is None or any(p in want for p in c.props)
 
     in_views = [sig_view(i.sig) for i in infos]
@@ -277,9 +279,10 @@ def merge_vcs(env, want):
                                       [key_eq(k, nt), rc, aligned], declared == listed, C_SRC_EXACT.props))
         if on(C_DEPTHS) and isinstance(dep, SymDict):
             for inf in infos:
-                out.append(VC(C_DEPTHS.full + ':has:%s' % inf.side, [], z3.Or(*[dk.t == inf.funcs[0].t for dk in dep_keys]), C_DEPTHS.props))
+                for j, f_ in enumerate(inf.funcs):
+                    out.append(VC(C_DEPTHS.full + ':has:%s%s' % (inf.side, '' if j == 0 else '#%d' % j), [], z3.Or(*[dk.t == f_.t for dk in dep_keys]), C_DEPTHS.props))
             for dk, dv in dep.items_:
-                cands = [(inf.funcs[0].t, inf.depth_terms[0]) for inf in infos]
+                cands = [(f_.t, d_) for inf in infos for f_, d_ in zip(inf.funcs, inf.depth_terms)]
                 # the minimum over the inputs that know this callable
                 goal = z3.And(z3.Or(*[dk.t == f for f, _ in cands]),
                               *[z3.Implies(dk.t == f, sym.zint(dv) <= d) for f, d in cands])
@@ -360,7 +363,15 @@ def law_vcs(env, want):
     def on(c):
         return want is None or any(p in want for p in c.props)
 
-    def eqsig(c, tag, a, b, params=True, ret=True, sources=None, star_names=True):
+    EmptyAnn = env['interp'].module('sigtools._signatures').ns['EmptyAnnotation']
+
+    def same_ua(x, y):
+        # what UpgradedAnnotation.__eq__ compares: both absent, or both present and denoting the same object
+        h1, d1 = ua_denotes(x, EmptyAnn)
+        h2, d2 = ua_denotes(y, EmptyAnn)
+        return z3.And(h1 == h2, z3.Implies(h1, d1 == d2))
+
+    def eqsig(c, tag, a, b, params=True, ret=True, sources=None, star_names=True, ua=False):
         """both outcomes are ('return', sig) | ('raise', exc)"""
         if a[0] != b[0]:
             out.append(VC(c.full + tag + ':same_outcome', env.get('law_assume', []), z3.BoolVal(False), c.props))
@@ -373,6 +384,11 @@ def law_vcs(env, want):
         goals = [t if t is not None else z3.BoolVal(False)]
         if ret:
             goals.append(_same_return(sa, sb))
+        if ua and t is not None:
+            # "equals" is the library's own ==, which also compares the upgraded annotations (what they denote)
+            goals += [same_ua(p._d['upgraded_annotation'], q._d['upgraded_annotation']) for p, q in zip(pa, pb)]
+            if ret:
+                goals.append(same_ua(sa._d['upgraded_return_annotation'], sb._d['upgraded_return_annotation']))
         if sources is not None:
             s = _same_sources(sa._d.get('sources'), sb._d.get('sources'), as_sets=(sources == 'sets'))
             goals.append(s if s is not None else z3.BoolVal(False))
@@ -380,17 +396,17 @@ def law_vcs(env, want):
     runs = env['runs']
     inp = ('return', env['infos'][0].sig)
     if mode == 'unary' and on(L_UNARY):
-        eqsig(L_UNARY, '', runs[0], inp, sources='lists')
+        eqsig(L_UNARY, '', runs[0], inp, sources='lists', ua=True)
         if runs[0][0] == 'return':
             src = runs[0][1]._d.get('sources')
             out.append(VC(L_UNARY.full + ':fresh_provenance', [], z3.BoolVal(isinstance(src, SymDict) and not sym.input_label(src)), L_UNARY.props))
     elif mode == 'idem' and on(L_IDEM):
-        eqsig(L_IDEM, '', runs[0], inp)
+        eqsig(L_IDEM, '', runs[0], inp, ua=True)
     elif mode in ('neutral_l', 'neutral_r') and on(L_NEUTRAL):
         main = ('return', env['infos'][1 if mode == 'neutral_l' else 0].sig)
-        eqsig(L_NEUTRAL, ':' + mode, runs[0], main, star_names=False, ret=False)      # (the return annotation is the first signature's by design)
+        eqsig(L_NEUTRAL, ':' + mode, runs[0], main, star_names=False, ret=False, ua=True)      # (the return annotation is the first signature's by design)
     elif mode in ('roundtrip', 'roundtrip_sources') and on(L_ROUND):
-        eqsig(L_ROUND, ':' + mode, runs[0], inp, sources='lists')
+        eqsig(L_ROUND, ':' + mode, runs[0], inp, sources='lists', ua=True)
         if runs[0][0] == 'return' and mode == 'roundtrip_sources':
             src = runs[0][1]._d.get('sources')
             fresh = isinstance(src, SymDict) and not sym.input_label(src) and not any(sym.input_label(v) for _, v in src.items_)
@@ -400,7 +416,7 @@ def law_vcs(env, want):
     return out
 
 
-def make_runner(shapes_, want=None, alias_funcs=True, wf_inputs=True, mode='merge', bare_first=False):
+def make_runner(shapes_, want=None, alias_funcs=True, wf_inputs=True, mode='merge', bare_first=False, extra_callable=False):
     """returns (run(ctx, r), env) for merge over input signatures of the given shapes"""
     I = Interp()
     from vf import world as _world
@@ -484,9 +500,12 @@ def make_runner(shapes_, want=None, alias_funcs=True, wf_inputs=True, mode='merg
         if mode != 'merge':
             return run_law(ctx, r)
         env['merger_calls'] = []
-        infos = [mk_sig(I, ctx, 's%d' % i, sh) for i, sh in enumerate(shapes_)]
+        # extra_callable: every input's provenance knows a second callable (signatures that are themselves results of
+        # forwarding); it MAY be the defining function of another input, at any depth
+        infos = [mk_sig(I, ctx, 's%d' % i, sh, nfuncs=2 if extra_callable else 1) for i, sh in enumerate(shapes_)]
+        env['extra_callable'] = extra_callable
         for a, b in itertools.combinations(infos, 2):
-            same = harness.same_signature_term(a, b) if alias_funcs else None
+            same = harness.same_signature_term(a, b) if (alias_funcs and not extra_callable) else None
             if same is None:
                 ctx.add(a.funcs[0].t != b.funcs[0].t)
             else:
@@ -498,13 +517,7 @@ def make_runner(shapes_, want=None, alias_funcs=True, wf_inputs=True, mode='merg
         env['bare_first'] = bare_first
         if bare_first:
             # the first input was assembled by hand from parameters: it carries no provenance at all (sources == {})
-            empty = SymDict()
-            sym.mark_input(empty, 'sources map of s0 (empty)')
-            infos[0].sig._d['sources'] = empty
-            infos[0].src = empty
-            for p in infos[0].params:
-                p._d['sources'] = sym.TList([])
-                p._d['source_depths'] = SymDict()
+            harness.strip_provenance(infos[0])
         run_unit(I, m.ns['merge'], [i.sig for i in infos], [], r)
     return run, env
 
@@ -528,7 +541,16 @@ def law_replay(env, vc, model):
     conc = Concretizer(model)
     mode = env['mode']
     sigs = [conc.build_sig(i) for i in env['infos']]
-    sd = lambda s: (rt.params_data(s), s.return_annotation)
+    def uad(s):
+        # what the upgraded annotations denote (the library's == compares exactly that)
+        def val(u):
+            try:
+                return ('value', u.source_value())
+            except Exception as e:
+                return ('raises', type(e).__name__)
+        return [val(p.upgraded_annotation) for p in s.parameters.values()], val(s.upgraded_return_annotation)
+    sd_plain = lambda s: (rt.params_data(s), s.return_annotation)
+    sd = lambda s: (rt.params_data(s), s.return_annotation, uad(s))
 
     def srcd(s):
         return ({k: [id(f) for f in v] for k, v in s.sources.items() if k != '+depths'}, {id(f): d for f, d in s.sources.get('+depths', {}).items()})
@@ -546,7 +568,7 @@ def law_replay(env, vc, model):
             got = _signatures.merge(*sigs)
             main = sigs[1 if mode == 'neutral_l' else 0]
             strip = lambda s: [(n if k not in (2, 4) else '*', k, d, a) for (n, k, d, a) in [(p.name, int(p.kind), p.default, p.annotation) for p in s.parameters.values()]]
-            if strip(got) != strip(main):
+            if strip(got) != strip(main) or uad(got)[0] != uad(main)[0]:
                 bad.append(('law:bare_stars_neutral', '%s vs %s' % (got, main)))
         elif mode in ('roundtrip', 'roundtrip_sources'):
             sp = _signatures.sort_params(sigs[0], sources=True) if mode == 'roundtrip_sources' else _signatures.sort_params(sigs[0])
@@ -560,7 +582,7 @@ def law_replay(env, vc, model):
             oc2 = rt.run_real(lambda: _signatures.merge(_signatures.merge(sigs[0], sigs[1]), sigs[2]))
             if oc1[0] != oc2[0]:
                 bad.append(('law:fold', 'merge(a, b, c): %s, merge(merge(a, b), c): %s' % (oc1, oc2)))
-            elif oc1[0] == 'return' and (sd(oc1[1]) != sd(oc2[1]) or srcd(oc1[1]) != srcd(oc2[1])):
+            elif oc1[0] == 'return' and (sd_plain(oc1[1]) != sd_plain(oc2[1]) or srcd(oc1[1]) != srcd(oc2[1])):
                 bad.append(('law:fold', '%s with %s vs %s with %s' % (oc1[1], srcd(oc1[1]), oc2[1], srcd(oc2[1]))))
     except Exception as e:
         bad.append(('law', 'raised %r' % (e,)))
@@ -580,7 +602,8 @@ def replay(env, vc, model):
     from sigtools import _signatures
     conc = Concretizer(model)
     infos = env['infos']
-    sigs = [conc.build_sig(i) for i in infos]
+    sigs = [conc.build_input(i) for i in infos]
+    conc.add_extra_callables(infos, sigs)
     import re as _re
     mstep = _re.search(r'#step(\d+)', vc.name)
     if mstep and vc.name.startswith(UM):
